@@ -352,7 +352,8 @@ class Progress:
                 if g.key in self.MC0 or (N and g.key in self.MC1):
                     return (1, N2 if g.key in self.ONE else 0, 0, 0)
                 if g.key in self.moves:
-                    return (C, 0, 0, 0)
+                    # (a loop governed by a local flag stays falsified whatever the cursor does: only a write of the flag can undo it)
+                    return (C, 0, X if flag_var is not None else 0, 0)
                 return (C, N, X, N2)
             w = SX.write_target(e)
             if w and SX.is_this_member(SX.strip(w[0]), self.cursor):
@@ -369,6 +370,8 @@ class Progress:
                         return (1, N, X, N2)
                 if flag_var is not None and SX.is_node(l) and l['k'] == 'ref' and l.get('id') == flag_var and SX.is_node(w[1]) and w[1]['k'] == 'bool' and not w[1]['v']:
                     return (C, N, 1, N2)
+                if flag_var is not None and SX.is_node(l) and l['k'] == 'ref' and l.get('id') == flag_var:
+                    return (C, N, 0, N2)      # the flag is written with something other than `false`: no longer known to be cleared
             return (C, N, X, N2)
         return (C, N, X, N2)
 
